@@ -228,6 +228,14 @@ fn binop_case<const OP: u8>(txt: &[u8]) {
     std::mem::forget(out);
 }
 
+/// experiment: tight inner-loop bounds (see specs.py unwindset for the scan loop and the oracle loops)
+#[kani::proof]
+#[kani::unwind(4)]
+#[kani::stub(crate::utils::push_column, crate::k_kcommon::model_push_column_l1)]
+fn c14_x_xls_binop_tight_ge() {
+    binop_case::<0x0C>(b">=")
+}
+
 macro_rules! binop {
     ($name:ident, $op:expr, $txt:expr) => {
         #[kani::proof]
